@@ -379,6 +379,108 @@ def vc_applied_patches_recorded(fns, variants, work):
                      witness_ok=reached[0] > 0 and returns[0] > 0, witness_note="call site or Ok return not reached")
 
 
+def vc_no_short_write(fns, variants, work):
+    """The functions that produce output files never call io::Write::write (which may write only part of the buffer and says so
+    in a count) -- only write_all / write_fmt / writeln!, which loop until everything is written or an error comes back."""
+    pat = r"(^|::)(save_applied_patches|save_modified_file|save_backup_file|rollback_and_save_rej_files|rollback_and_save_backup_files|write_to|write_rej_to)(::\{closure#\d+\})*$"
+    found, seen = [], 0
+    eng0 = None
+    for name in sorted(fns):
+        if not re.search(pat, name):
+            continue
+        fn = fns[name]
+        seen += 1
+
+        def on_call(eng, st, bb, site, stmt, dst, callee, args, nxt, name=name):
+            if re.search(r" as (std::io::)?Write>::write$", callee) or re.search(r"(^|::)File::write$", strip_generics(callee)):
+                ok, _ = eng.feasible(st)
+                if ok:
+                    found.append({"bb": bb, "stmt": stmt[:160], "what": "%s calls Write::write: a short write is not an error and the rest of the buffer is lost silently" % name.split("::")[-1],
+                                  "model": {}, "trace": list(st.trace[-8:])})
+            return None
+        if not any(re.search(r"Write>::write\b|File::write\b", s_) for stmts in fn.blocks.values() for s_ in stmts):
+            continue          # nothing to explore: no such call in the text at all
+        eng = Engine(fns, fn, variants, hooks={"on_call": on_call})
+        eng.seeds = set()
+        eng.run()
+        eng0 = eng0 or eng
+    if seen == 0:
+        raise KeyError("output functions (save_applied_patches, ...)")
+    if eng0 is None:
+        return {"verdict": "holds", "queries": 0, "states": 0, "paths": 0, "solver_s": 0.0, "output_functions_checked": seen, "function": "output functions"}
+    return summarize(eng0, found, {"output_functions_checked": seen}, work, "c18w", witness_ok=True)
+
+
+def vc_worker_rolls_back_before_save(fns, variants, work):
+    """parallel::save_files_worker: every worker rolls the failing patch back (rollback_and_save_rej_files(final_patch)) before it
+    saves its files, whether or not one of ITS file patches failed -- a worker that only holds cleanly applied file patches of the
+    failing patch must undo them too.  (The call itself returns at once when there is nothing of that patch on the stack.)"""
+    fn = find_fn(fns, r"^save_files_worker$")
+    found, reached = [], {"save": 0}
+
+    def on_call(eng, st, bb, site, stmt, dst, callee, args, nxt):
+        if callee_is(callee, "rollback_and_save_rej_files"):
+            st.ghost = st.ghost | {"rej"}
+        elif strip_generics(callee).endswith("ModifiedFiles::save"):
+            reached["save"] += 1
+            if "rej" not in st.ghost:
+                ok, model = eng.feasible(st)
+                eng.record_query("%s save without rollback" % bb, list(st.pc))
+                if ok:
+                    found.append({"bb": bb, "stmt": stmt[:160], "what": "a worker saves its files without rolling back its share of the failing patch first",
+                                  "model": model_values(model, ("in_", "c_")), "trace": list(st.trace[-30:])})
+        return None
+
+    eng = Engine(fns, fn, variants, hooks={"on_call": on_call})
+    eng.seeds = cfg_seeds(fn, ["dry_run"])
+    eng.run()
+    return summarize(eng, found, {"save_sites_reached": reached["save"]}, work, "c05w", witness_ok=reached["save"] > 0, witness_note="ModifiedFiles::save not reached")
+
+
+def vc_backup_keeps_mode(fns, variants, work):
+    """save_backup_file: a backup of a file that has permissions gets them through set_permissions on the open file (a creation
+    mode is filtered by the umask and ignored when the backup exists already), before the content is written: on every path to
+    the content write either set_permissions was called, or the file's Option<Permissions> was examined and is None."""
+    cands = [f for n, f in fns.items() if re.match(r"(common::)?save_backup_file(::\{closure#\d+\})*$", n)
+             and any(re.search(r"ModifiedFile::<[^>]*>::write_to|ModifiedFile::write_to", s_) for stmts in f.blocks.values() for s_ in stmts)]
+    if not cands:
+        raise KeyError("save_backup_file: the function (or closure) that writes the backup content")
+    fn = cands[0]
+    found, reached = [], {"writes": 0, "setperm": 0}
+
+    def on_stmt(eng, st, bb, s):
+        m = re.match(r"(_\d+) = discriminant\(.*Option<std::fs::Permissions>\)\)$", s)
+        if m:
+            st.ghost = st.ghost | {"look:" + m.group(1)}
+        m = re.match(r"switchInt\(move (_\d+)\) -> \[(.*)\]$", s)
+        if m and ("look:" + m.group(1)) in st.ghost:
+            arms = dict(re.findall(r"(\d+|otherwise): (bb\d+)", m.group(2)))
+            if "0" in arms:
+                st.ghost = st.ghost | {"none_arm:" + arms["0"]}
+
+    def on_call(eng, st, bb, site, stmt, dst, callee, args, nxt):
+        c = strip_generics(callee)
+        if re.search(r"File::set_permissions$", c):
+            reached["setperm"] += 1
+            st.ghost = st.ghost | {"perm"}
+        elif re.search(r"ModifiedFile::write_to$", c):
+            reached["writes"] += 1
+            if "perm" not in st.ghost:
+                none_arms = [g[9:] for g in st.ghost if g.startswith("none_arm:")]
+                took_none = any(a == bb or a in st.trace for a in none_arms)
+                ok, _ = eng.feasible(st)
+                if ok and not took_none:
+                    what = ("the backup's content is written without set_permissions although the file may carry permissions" if none_arms else
+                            "the backup's content is written without the file's permissions having been looked at (the backup would get whatever mode create + umask give)")
+                    found.append({"bb": bb, "stmt": stmt[:160], "what": what, "model": {}, "trace": list(st.trace[-12:])})
+        return None
+
+    eng = Engine(fns, fn, variants, hooks={"on_call": on_call, "on_stmt": on_stmt})
+    eng.run()
+    return summarize(eng, found, {"write_sites_reached": reached["writes"], "set_permissions_sites_reached": reached["setperm"]}, work, "c08p",
+                     witness_ok=reached["writes"] > 1 and reached["setperm"] > 0, witness_note="expected the write to be reached with and without permissions: %r" % reached)
+
+
 def vc_sequential_order(fns, variants, work):
     """sequential::apply_patches: once a file patch failed, rollback_and_save_rej_files runs before ModifiedFiles::save
     (unless dry_run), and no further file patch is applied after that rollback."""
